@@ -122,6 +122,7 @@ func (r *Raft) requestConfigChange(req configurationChangeRequest, timeout time.
 		req: req,
 	}
 	future.init()
+	future.ShutdownCh = r.stoppedCh
 	select {
 	case <-timer:
 		return errorFuture{ErrEnqueueTimeout}
@@ -2244,6 +2245,7 @@ func (r *Raft) pickServer() *Server {
 func (r *Raft) initiateLeadershipTransfer(id *ServerID, address *ServerAddress) LeadershipTransferFuture {
 	future := &leadershipTransferFuture{ID: id, Address: address}
 	future.init()
+	future.ShutdownCh = r.stoppedCh
 
 	if id != nil && *id == r.localID {
 		err := fmt.Errorf("cannot transfer leadership to itself")
